@@ -391,6 +391,33 @@ impl Env {
         let max_feerate = *rng.pick(&[333_333u32, 333_333, 25_000, 100_000]);
         cfg.policy.min_feerate_per_kw = min_feerate;
         cfg.policy.max_feerate_per_kw = max_feerate;
+        // A third of the worlds run with a policy filter that demotes rules of OTHER areas to warnings
+        // (commitments, mutual close, routing, channel setup, on-chain funding, and the catch-all tag the HTLC
+        // transaction binding check reports under, which is a hard error whatever the filter says).  None of the
+        // sweep / second-level HTLC rules (policy-sweep-*, policy-htlc-fee-range, policy-htlc-locktime) is
+        // demoted, so the clauses of the property stay what they are.
+        if rng.chance(1, 3) {
+            use lightning_signer::policy::filter::{FilterResult, FilterRule, PolicyFilter};
+            let candidates: [(&str, bool); 9] = [
+                ("policy-commitment-", true),
+                ("policy-commitment-fee-range", false),
+                ("policy-mutual-", true),
+                ("policy-routing-", true),
+                ("policy-channel-", true),
+                ("policy-onchain-fee-range", false),
+                ("policy-funding-max", false),
+                ("policy-htlc-other", false),
+                ("policy-other", false),
+            ];
+            let mut rules = vec![];
+            for _ in 0..1 + rng.usize(3) {
+                let (tag, is_prefix) = *rng.pick(&candidates);
+                rules.push(FilterRule { tag: tag.to_string(), is_prefix, action: FilterResult::Warn });
+                r.set_add("world.filter_rules", tag);
+            }
+            cfg.policy.filter = PolicyFilter { rules };
+            r.count("world.with_policy_filter_on_other_areas");
+        }
         let net = cfg.network;
         let world = World::new(cfg);
         let node = world.node.clone();
